@@ -34,9 +34,10 @@ impl SingleQuery {
             self.var_order.push(Param { internal, value });
             format!("?{}", self.var_order.len())
         } else {
+            //a variable only shares the slot of the same variable, never the slot of a literal that has the same text
             for i in 0..self.var_order.len() {
-                let p = &self.var_order[i].value;
-                if value.eq(p) {
+                let p = &self.var_order[i];
+                if !p.internal && value.eq(&p.value) {
                     return format!("?{}", i + 1);
                 }
             }
